@@ -181,6 +181,9 @@ func c20Specs(c *run.Ctx) []built {
 	cand = append(cand,
 		spec.Spec{Name: "crossorigin-url", Base: "new", Calls: []C{attrsOn([]string{"src", "alt"}, "", "img", "audio", "video"), attrsOn([]string{"href"}, "", "link", "a", "area"),
 			{Op: "AllowStandardURLs"}, opt("RequireCrossOriginAnonymous", true), attrsOn([]string{"target"}, "", "area", "a"), opt("AddTargetBlankToFullyQualifiedLinks", true)}},
+		// schemes admitted by name and schemes admitted only by pattern take different branches of the URL normal form
+		spec.Spec{Name: "c20-scheme-pattern", Base: "new", Calls: []C{attrsOn([]string{"href"}, "", "a"), attrsOn([]string{"src"}, "", "img"), attrsOn([]string{"cite"}, "", "q"),
+			{Op: "AllowURLSchemes", Names: []string{"https"}}, {Op: "AllowURLSchemesMatching", Re: `^(ftp|tel)$`}}},
 		spec.Spec{Name: "crossorigin-admitted", Base: "new", Calls: []C{attrsOn([]string{"src", "crossorigin"}, "", "img", "audio"), opt("RequireCrossOriginAnonymous", true), els("b")}},
 	)
 	k := 2
@@ -262,7 +265,7 @@ func runC20(c *run.Ctx) {
 	SeqsS(c, "exotic", fragCoreExotic(), 0, 2, func(in []byte, _ []int) { eval(allSpecs, in) })
 	SeqsS(c, "exotic", fragCoreExotic(), 3, 3, func(in []byte, _ []int) { eval(named[:min(8, len(named))], in) })
 	// URL layer
-	urlSpecs := pick(named, "ugc", "links", "link-relfalse-targetfalse", "link-reltrue-targettrue", "cmd-ugc")
+	urlSpecs := pick(named, "ugc", "links", "link-relfalse-targetfalse", "link-reltrue-targettrue", "cmd-ugc", "c20-scheme-pattern")
 	ku := 3
 	if !c.Quick() {
 		ku = 4
